@@ -127,7 +127,10 @@ def gen_ops_c04(rng, cfg):
         now[0] = max(TICK, now[0] + rng.choice([0, 256, TICK, TICK, 2 * TICK, 6 * TICK, -TICK]))
         if st in (PSt.STARTING, PSt.RUNNING, PSt.BACKOFF) and r < 0.35:
             if rng.random() < 0.7:
-                return {'op': 'rpcstop', 'now': now[0], 'mood': 1 if rng.random() < 0.9 else 0, 'kill': killres()}
+                op = {'op': 'rpcstop', 'now': now[0], 'mood': 1 if rng.random() < 0.9 else 0, 'kill': killres()}
+                if rng.random() < 0.4:
+                    op['form'] = rng.choice(['star', 'group', 'all'])       # `stop g:*` / stopProcessGroup / stopAllProcesses
+                return op
             return {'op': 'groupstop', 'now': now[0], 'kill': killres()}
         if proc.pid and r < 0.5:
             return {'op': 'reap', 'now': now[0], 'es': rng.choice([0, 1, 2, -1]), 'busy': False}
